@@ -379,6 +379,12 @@ impl Runner {
     fn settle(&mut self) -> String {
         let s = gate::wait_settled(self.timeout);
         self.flush_events();
+        if s == "stuck" {
+            // a thread that neither parks, idles nor exits: report it once with the long timeout,
+            // then do not let every later step of this process wait that long again
+            self.stopped = true;
+            self.timeout = Duration::from_millis(1500);
+        }
         s
     }
 
@@ -1232,7 +1238,7 @@ fn main() {
     let timeout = std::env::var("RLV_TIMEOUT_MS")
         .ok()
         .and_then(|s| s.parse::<u64>().ok())
-        .unwrap_or(10_000);
+        .unwrap_or(45_000);
     let mut r = Runner {
         out: io::BufWriter::new(io::stdout()),
         base: base.clone(),
